@@ -1,1 +1,23 @@
-fn main() {}
+//! E1 scenario driver: `scen <scenario> --seed S --shard i --nshards n --cases N --tier T --out F`
+mod common;
+mod delivery;
+
+use common::Shard;
+use vcore::Args;
+
+fn main() {
+    let args = Args::parse();
+    let scenario = args.pos.first().cloned().unwrap_or_default();
+    let shard = Shard::from_args(args);
+    let rep = match scenario.as_str() {
+        "c01" => delivery::run(&shard, "C01", delivery::Mode::Reliable),
+        "c02" => delivery::run(&shard, "C02", delivery::Mode::BestEffort),
+        "c05r" => delivery::run(&shard, "C05", delivery::Mode::FragReliable),
+        "c05b" => delivery::run(&shard, "C05", delivery::Mode::FragBestEffort),
+        other => {
+            eprintln!("unknown scenario {other}");
+            std::process::exit(3);
+        }
+    };
+    rep.write(&shard.out);
+}
